@@ -29,7 +29,7 @@ def sim(name, scenario, **kw):
 
 
 def c12_jobs(tier):
-    jobs = [sim("c12-direct", "c12", require_counters=["topic_deleted_before_subscription", "stream_ended_not_found"])]
+    jobs = [sim("c12-direct", "c12", require_counters=["topic_deleted_before_subscription", "stream_ended_not_found", "delete_inside_burst_over_mailbox"])]
     if tier == "thorough":
         jobs.append(sim("c12-h2", "c12", transport="h2"))
     return jobs
@@ -53,7 +53,7 @@ def c18_jobs(tier):
 
 
 def c16_jobs(tier):
-    return [sim("c16-crashpoints", "c16", require_counters=["abandoned_mid_flight", "abandoned_with_full_mailbox_seen", "dropped_while_parked"])]
+    return [sim("c16-crashpoints", "c16", require_counters=["abandoned_mid_flight", "abandoned_with_full_mailbox_seen", "dropped_while_parked", "names_reused_after_abandonment"])]
 
 
 def c14_jobs(tier):
